@@ -558,10 +558,11 @@ func registerLibHooks(e *Engine) {
 	H["(reflect.Value).Pointer"] = func(st *State, a []Value) Value {
 		v := a[0].(*StructV)
 		if fv, ok := v.F[1].(*FuncV); ok {
-			id := int64(fv.ID)
-			if id == 0 && fv.Fn != nil {
-				id = int64(1000000 + st.E.fnIndex(fv.Fn.String()))
+			if fv.IsNil() || fv.Fn == nil {
+				return st.E.intTerm(big.NewInt(0), types.Typ[types.Uintptr])
 			}
+			// the code pointer: one per function (literal), shared by all its closures
+			id := int64(1000000 + st.E.fnIndex(fv.Fn.String()))
 			return st.E.intTerm(big.NewInt(id), types.Typ[types.Uintptr])
 		}
 		st.unsupported("reflect.Value.Pointer on %T", v.F[1])
@@ -569,6 +570,46 @@ func registerLibHooks(e *Engine) {
 	}
 	H["runtime.Callers"] = func(st *State, a []Value) Value { return st.E.intTerm(big.NewInt(0), intT) }
 	H["runtime/debug.Stack"] = func(st *State, a []Value) Value { return &SliceV{} }
+	H["(*go/token.FileSet).Position"] = func(st *State, a []Value) Value {
+		return st.E.Zero(st.E.namedType("go/token", "Position"))
+	}
+	H["(go/token.Position).String"] = func(st *State, a []Value) Value { return StrT("-") }
+	H["(*go/token.Position).String"] = H["(go/token.Position).String"]
+	H["go/token.NewFileSet"] = func(st *State, a []Value) Value {
+		return &PtrV{Obj: st.newObject(nil, "fileset", &StructV{})}
+	}
+	H["(reflect.Value).Call"] = func(st *State, a []Value) Value {
+		v := a[0].(*StructV)
+		fv, ok := v.F[1].(*FuncV)
+		if !ok {
+			st.unsupported("reflect.Value.Call on a value that does not hold a function (%T)", v.F[1])
+		}
+		var args []Value
+		if in, ok := a[1].(*SliceV); ok {
+			for _, e := range st.sliceElems(in) {
+				args = append(args, e.(*StructV).F[1])
+			}
+		}
+		r := st.Call(fv, args, nil)
+		var outs []Value
+		switch x := r.(type) {
+		case nil:
+		case TupleV:
+			for _, o := range x {
+				outs = append(outs, &StructV{F: []Value{&PtrV{}, o, IntT64(1)}})
+			}
+		default:
+			outs = append(outs, &StructV{F: []Value{&PtrV{}, x, IntT64(1)}})
+		}
+		if len(outs) == 0 {
+			return &SliceV{}
+		}
+		o := st.newObject(nil, "callresults", &ArrayV{E: outs})
+		return &SliceV{Obj: o, Len: len(outs), Cap: len(outs)}
+	}
+	H["context.Background"] = func(st *State, a []Value) Value {
+		return &IfaceV{T: opaqueDyn, V: &OpaqueV{Name: "context.Background", ID: 7}}
+	}
 	H["errors.New"] = func(st *State, a []Value) Value {
 		return &IfaceV{T: st.E.errorsStringType(), V: &PtrV{Obj: st.newObject(nil, "errors.New", &StructV{F: []Value{a[0]}})}}
 	}
@@ -655,6 +696,15 @@ func reflectKindOf(t types.Type) int {
 		return 25
 	}
 	return 0
+}
+
+func (e *Engine) namedType(pkg, name string) types.Type {
+	if p := e.P.Package(pkg); p != nil {
+		if t := p.Type(name); t != nil {
+			return t.Type()
+		}
+	}
+	panic("type not loaded: " + pkg + "." + name)
 }
 
 func (e *Engine) reflectValueType() types.Type {
